@@ -61,6 +61,7 @@ pub const K_C: O4 = (0, 1, 1, Some(1));
 pub const K_D: O4 = (1, 1, 0, None);
 
 pub const SRC_NAMES: [&str; 2] = ["s0", "s1"];
+pub const SRC_NAMES_NC: [&str; 2] = ["t0", "t1"];
 pub const SRC_CONTENTS: [&str; 2] = ["ab\ncd", "xy\nab;c"];
 pub const NAMES: [&str; 2] = ["n0", "n1"];
 
@@ -92,9 +93,10 @@ pub fn seg_lists(positions: &[(u32, u32)], kinds: &[Option<O4>], max: usize) -> 
 }
 
 pub fn map_spec(segs: Vec<Seg>, with_content: bool) -> MapSpec {
+  // same name => same content everywhere: content-less tables use their own names
   let mut m = MapSpec::new(
     segs,
-    &SRC_NAMES,
+    if with_content { &SRC_NAMES } else { &SRC_NAMES_NC },
     if with_content { Some(&SRC_CONTENTS) } else { None },
     &NAMES,
   );
@@ -172,7 +174,7 @@ pub fn script_leaves(texts: &[&str], max_pieces: usize, kinds: &[Option<O4>], co
         for lazy in [false, true] {
           v.push(Term::Script(Box::new(ScriptSpec {
             pieces: pieces.clone(),
-            sources: SRC_NAMES
+            sources: (if contents { SRC_NAMES } else { SRC_NAMES_NC })
               .iter()
               .zip(SRC_CONTENTS)
               .map(|(n, c)| (n.to_string(), contents.then(|| c.to_string())))
@@ -214,6 +216,8 @@ pub fn ranges(len: usize, over: usize) -> Vec<(u32, u32)> {
 }
 
 pub struct ReplScope<'a> {
+  /// pairs also in variants where one of the two carries a name
+  pub names2: bool,
   pub contents1: &'a [&'a str],
   pub contents2: &'a [&'a str],
   pub names1: bool,
@@ -264,6 +268,10 @@ pub fn for_each_replset(sc: &ReplScope, f: &mut dyn FnMut(Vec<Repl>)) {
             }
           } else {
             f(vec![Repl::new(s1, e1, c1), Repl::new(s2, e2, c2)]);
+          }
+          if sc.names2 {
+            f(vec![Repl::new(s1, e1, c1).named("n"), Repl::new(s2, e2, c2)]);
+            f(vec![Repl::new(s1, e1, c1), Repl::new(s2, e2, c2).named("n0")]);
           }
         }
       }
@@ -360,6 +368,7 @@ pub fn for_each_tree(sc: &TreeScope, st: &mut Striper, visit: &mut dyn FnMut(&Te
   for l in &sc.leaves {
     let text = model::model_text(l);
     let rs = ReplScope {
+      names2: false,
       contents1: &sc.repl_contents1,
       contents2: &sc.repl_contents2,
       names1: sc.repl_names,
@@ -378,6 +387,7 @@ pub fn for_each_tree(sc: &TreeScope, st: &mut Striper, visit: &mut dyn FnMut(&Te
   for c in &level1 {
     let text = model::model_text(c);
     let rs = ReplScope {
+      names2: false,
       contents1: &sc.repl_contents1,
       contents2: &sc.repl_contents2,
       names1: false,
@@ -401,6 +411,7 @@ pub fn for_each_tree(sc: &TreeScope, st: &mut Striper, visit: &mut dyn FnMut(&Te
   for l in &sc.small_leaves {
     let text = model::model_text(l);
     let rs = ReplScope {
+      names2: false,
       contents1: &sc.repl_contents1,
       contents2: &[],
       names1: false,
@@ -431,6 +442,7 @@ pub fn for_each_tree(sc: &TreeScope, st: &mut Striper, visit: &mut dyn FnMut(&Te
         // Replace(Replace(leaf, r1), r2) with singles
         let t2 = model::model_text(&r);
         let rs2 = ReplScope {
+          names2: false,
           contents1: &["", "X", "\n"],
           contents2: &[],
           names1: false,
